@@ -294,7 +294,8 @@ def check_program(ctx, tree, style, casings, params=None, pops=('rich',), counts
                 clause = '%s:%s' % (clause, words.pop())
             ctx.check(False, clause=clause,
                       input=dict(tree=tree, style=style, casing=dict((str(k), v) for k, v in small.items()), oal=small_text,
-                                 oal_lower=base.text, populations=list(pops), params=params or {}),
+                                 oal_lower=base.text, populations=list(pops), params=params or {},
+                                 population_rows=dict((q, G.POPULATIONS[q]) for q in pops)),
                       observed=small_obs, required=required)
 
 
@@ -374,7 +375,8 @@ def _catalogue():
             'not empty not_empty cardinality true false and or control stop selected param; verbose style adds assign then loop), each keyword '
             '(all its occurrences, the other keywords lower-case) in UPPER / Capitalised / mixed case, and all keywords together; exhaustive')
 def per_keyword(ctx):
-    ctx.note(NOTE)
+    if ctx.shard == 0:
+        ctx.note(NOTE)
     counts = {}
     n = 0
     for tree in _catalogue():
@@ -411,7 +413,8 @@ def _two_casings(ctx, tree, style, n):
             'with all keywords in one of UPPER / Capitalised / mixed (rotating) and one random per-keyword mix, plain and verbose style '
             'alternating; population rich; as far as the time budget allows')
 def single_statements(ctx):
-    ctx.note(NOTE)
+    if ctx.shard == 0:
+        ctx.note(NOTE)
     single, _ = _spaces(ctx)
     counts = {}
     for n, tree in enumerate(single):
@@ -430,7 +433,8 @@ def single_statements(ctx):
             'Capitalised / mixed (rotating) and one random per-keyword mix, plain and verbose style alternating; population rich; as far as '
             'the time budget allows')
 def control_flow(ctx):
-    ctx.note(NOTE)
+    if ctx.shard == 0:
+        ctx.note(NOTE)
     _, control = _spaces(ctx)
     counts = {}
     for n, tree in enumerate(control):
@@ -448,7 +452,8 @@ def control_flow(ctx):
       bound="C04's random programs (up to 3 statements / depth 2 quick, 6 statements / depth 3 thorough), plain and verbose style, each with all "
             'keywords UPPER / Capitalised / mixed and two random per-keyword mixes; populations rich, sparse, empty; sampled until 80% of the budget')
 def programs_sampled(ctx):
-    ctx.note(NOTE)
+    if ctx.shard == 0:
+        ctx.note(NOTE)
     prof = dict(depth=2, chain=2) if ctx.quick else dict(depth=3, chain=3)
     counts = {}
     n = 0
